@@ -826,7 +826,12 @@ def Provides(*interfaces):  # pylint:disable=function-redefined
     spec = InstanceDeclarations.get(interfaces)
     if spec is None:
         spec = ProvidesClass(*interfaces)
-        InstanceDeclarations[interfaces] = spec
+        # Interfaces the class implemented at this moment were stripped
+        # as redundant. Such a declaration silently depends on the
+        # class's declarations staying as they are, so it must not be
+        # handed out again for the same arguments later on.
+        if len(spec.__bases__) == len(interfaces):
+            InstanceDeclarations[interfaces] = spec
 
     return spec
 
